@@ -206,7 +206,17 @@ func c01(p *Prog, r *Report) {
 		elen := "conv<int>(call<(github.com/cloudflare/circl/group.Group).Params>(call<(github.com/cloudflare/circl/oprf.Suite).Group>(load(global:github.com/cloudflare/circl/oprf.SuiteRistretto255))).CompressedElementLength)"
 		_ = elen
 		e := "index(make(len(param:1.BlindedReq)), *)"
-		retValueIs(p, r, R2, fn, "varint(len(elements)) || elements || proof", "cat(varint(conv<uint64>(len(each("+e+")))), each("+e+"), extract<0>(call<(*github.com/cloudflare/circl/zk/dleq.Proof).MarshalBinary>(*.Proof)))")
+		// elements taken from a per-request slot slice, or emitted directly as
+		// fixed-width copies of the evaluated elements
+		e2 := "make(const:32, copy(extract<0>(call<(github.com/cloudflare/circl/oprf.Evaluated).MarshalBinaryCompress>(index(*, *)))))"
+		pat := func(e string) string {
+			return "cat(varint(conv<uint64>(len(each(" + e + ")))), each(" + e + "), extract<0>(call<(*github.com/cloudflare/circl/zk/dleq.Proof).MarshalBinary>(*.Proof)))"
+		}
+		if t := p.NewSym(fn).returnTerm(); t != nil && t.Op == "tuple" && len(t.Args) > 0 && glob(pat(e2), t.Args[0].String()) {
+			r.OK(R2, shortName(fn)+" returns varint(len(elements)) || elements || proof", p.Pos(fn.Pos()), "elements emitted as 32-byte copies of the evaluated elements")
+		} else {
+			retValueIs(p, r, R2, fn, "varint(len(elements)) || elements || proof", pat(e))
+		}
 	}
 	if fn := anchor(p, r, R2, "(~/tokens/type5.BatchedPrivateTokenRequestState).FinalizeTokens"); fn != nil {
 		s := p.NewSym(fn)
